@@ -23,8 +23,11 @@ UINT_CARRIERS = ["uint8", "uint16", "uint32", "uint64", "bool"]
 NEAR_LIMIT = {"int8": [100, -100, 127], "int16": [20000, -30000], "int32": [70000, -50000], "uint8": [200, 255]}
 
 
-def gen_value(rng, big_ok, narrow=None):
+def gen_value(rng, big_ok, narrow=None, array=False):
     r = rng.random()
+    if array and r < .3:
+        # array arguments whose entries fit a narrow carrier while their squares do not (seeded change C02-7)
+        return Fraction(int(gen.choice(rng, [100, -100, 127, 200, 255, 20000, -30000, 70000])))
     if narrow and big_ok and r < .45:
         # values that fit the polynomial's narrow coefficient dtype but whose squares / products do not
         return Fraction(int(gen.choice(rng, NEAR_LIMIT[narrow])))
@@ -74,7 +77,8 @@ def gen_case(rng, i):
             continue
         shape = gen.sub_shape(rng, common)
         size = int(numpy.prod(shape, dtype=int))
-        vals = [gen_value(rng, big_ok and not shape, a["dtype"] if a.get("dtype") in NEAR_LIMIT else None) for _ in range(size)]
+        vals = [gen_value(rng, big_ok and not shape, a["dtype"] if a.get("dtype") in NEAR_LIMIT else None,
+                          array=big_ok and bool(shape)) for _ in range(size)]
         kind = "complex" if any(isinstance(v, tuple) for v in vals) else ("float" if any(v.denominator != 1 for v in vals) else "int")
         bound[nm] = {"names": [0], "shape": list(shape), "dtype": gen.KIND_DTYPE[kind], "kind": kind,
                      "terms": [[[0], [coef_json(v) for v in vals]]], "as": "scalar" if not shape else "ndarray"}
@@ -119,7 +123,7 @@ def carrier_variants(struct):
     if struct.get("as") == "ndarray" and struct.get("kind") == "int":
         arr = gen.materialize(struct, "ndarray")
         out = []
-        for name in ("int8", "uint8", "int16", "uint16", "int32", "float32"):
+        for name in ("int8", "uint8", "int16", "uint16", "int32", "uint32", "float16", "float32"):
             with numpy.errstate(all="ignore"):
                 cast = arr.astype(name)
             if numpy.array_equal(cast.astype(object), arr.astype(object)):
@@ -148,6 +152,11 @@ def carrier_variants(struct):
             out.append(("bool", bool(n)))
             out.append(("bool_", numpy.bool_(n)))
         out.append(("0d", numpy.array(n)))
+        for name in ("int8", "uint8", "int16", "int32", "float16", "float32"):
+            with numpy.errstate(all="ignore"):
+                cast = numpy.array(n).astype(name)
+            if cast.astype(object).item() == n:
+                out.append(("0d-" + name, cast))
     f = float(v)
     out.append(("float", f))
     out.append(("float64", numpy.float64(f)))
@@ -190,7 +199,7 @@ def check(ctx, c, model, monitor=None):
     variants = [("base", base_args, base_kwargs)]
     slots = [("arg", i, x) for i, x in enumerate(c["args"]) if x is not None] + [("kw", i, v) for i, (_, v) in enumerate(c["kwargs"])]
     for where, i, x in slots:
-        for cname, obj in carrier_variants(x)[:16] if x.get("as") == "scalar" or (x.get("as") == "ndarray" and x.get("kind") == "int") else []:
+        for cname, obj in carrier_variants(x)[:32] if x.get("as") == "scalar" or (x.get("as") == "ndarray" and x.get("kind") == "int") else []:
             a2, k2 = list(base_args), [list(kv) for kv in base_kwargs]
             if where == "arg":
                 a2[i] = obj
